@@ -18,7 +18,9 @@
 // (TestC13Prune); batch confirmations are delivered by transactions whose creator is NOT the
 // orchestrator they name, and blocks pass while signed messages sit in the queue (c06_aging_test.go); the
 // sibling chains have turnstone queues of their own and ONE MsgAddMessagesSignatures carries signatures for
-// several messages of several queues (c06_multichain_test.go).
+// several messages of several queues (c06_multichain_test.go); messages are assigned AGAIN after the first
+// assignment (retry of a failed logic call, reassignment of stale messages) while the snapshot moves between
+// the assignments and estimates arrive after the election (c14_reassign_test.go).
 // Monitors evaluate the property on what the harness itself did and saw registered,
 // never on what the implementation stored.
 package harness
@@ -975,8 +977,17 @@ func (c *q06Case) eligible(id int, mev bool) (ok bool, remotes []int) {
 }
 
 func (c *q06Case) opEnq(kind string, sender int, mev bool, ts int64) {
+	c.opEnqR(kind, sender, mev, ts, 2)
+}
+
+// opEnqR: as opEnq, for a logic call that has `retries` attempts behind it (2 = none left; what opEnq uses).
+// The op line is the same: the model's `enqueue` does not depend on it.
+func (c *q06Case) opEnqR(kind string, sender int, mev bool, ts int64, retries uint32) {
 	c.content++
 	m, _ := c.action(kind, c.content, sender, mev)
+	if slc := m.GetSubmitLogicCall(); slc != nil {
+		slc.Retries = retries
+	}
 	ctx := c.ctx.WithBlockTime(time.Unix(ts, 0).UTC())
 	before := len(c.msgs())
 	var id uint64
@@ -2183,6 +2194,9 @@ func q06RunTest(t *testing.T, prop string) {
 		q14Directed(t, r, fx)
 	}
 	q14ValsetEnqueue(t, r, fx)
+	if prop == "C14" {
+		c14rCases(t, r, fx, "C14") // reassignment, retry, snapshot changes between assignments (c14_reassign_test.go); after everything else
+	}
 	if prop == "C06" {
 		c06mCases(t, r, fx) // several queues, several signatures per request (c06_multichain_test.go); last: earlier random streams unchanged
 	}
